@@ -1823,6 +1823,84 @@ def stream_setitem(ctx, batch):
                           "Lean copyImpl and the copy of a tag with an unsettled attribute dict disagree", "setitem")
 
 
+def soup_tokens(reg, s):
+    f = lambda x: "N" if x is None else ptok(x)
+    return " ".join([str(reg.oid(s.builder)), ob(bool(s.builder.is_xml)), ob(bool(s.is_xml)),
+                     "N" if s.parse_only is None else str(reg.oid(s.parse_only)),
+                     "N" if not s.element_classes else str(reg.oid(s.element_classes)),
+                     f(s.original_encoding), f(s.declared_html_encoding), ob(bool(s.contains_replacement_characters))])
+
+
+def stream_soupinfo(ctx, batch):
+    """the document-level fields of a BeautifulSoup object under copy (against the Lean soupCopySelf) and under pickling:
+    builder reuse, is_xml, parse_only, element_classes, original_encoding, declared_html_encoding, contains_replacement_characters"""
+    e = E()
+    import logging
+    from bs4 import SoupStrainer
+    logging.getLogger("bs4.dammit").setLevel(logging.ERROR)    # "Some characters could not be decoded" is expected here
+    BS = e["BeautifulSoup"]
+    body = '<html><head><meta charset="%s"><title>t</title></head><body><p class="a b">caf\xe9 %s</p><!--c--></body></html>'
+    inputs = []
+    for enc in ("latin-1", "utf-8", "windows-1252", "koi8-r"):
+        try:
+            inputs.append((f"bytes/{enc}", (body % (enc, "x")).encode(enc), {}))
+        except UnicodeEncodeError:
+            inputs.append((f"bytes/{enc}", (body % (enc, "x")).replace("\xe9", "e").encode(enc), {}))
+    inputs.append(("str", body % ("utf-8", "y"), {}))
+    inputs.append(("bytes/replacement", b"<p>\xff\xfe\x81\x8d caf\xc3\xa9</p>", {"from_encoding": "utf-8"}))
+    inputs.append(("bytes/from_encoding", (body % ("latin-1", "z")).encode("latin-1"), {"from_encoding": "latin-1"}))
+    inputs.append(("bytes/no-declaration", "<p>caf\xe9</p>".encode("utf-8"), {}))
+    extras = [("plain", {}), ("parse_only", {"parse_only": SoupStrainer(["p", "meta"])}),
+              ("element_classes", {"element_classes": {e["NS"]: e["cls"]["SubNS"]}}),
+              ("both", {"parse_only": SoupStrainer("p"), "element_classes": {e["Tag"]: e["Tag"]}})]
+    n = 0
+    for iname, markup, kw in inputs:
+        for xname, xkw in extras:
+            for cls in (BS, e["SubSoup"]):
+                s = cls(markup, "html.parser", **kw, **xkw)
+                case = {"op": "soupinfo", "input": iname, "options": xname, "class": cls.__name__}
+                fields = lambda x: (x.original_encoding, x.declared_html_encoding, x.contains_replacement_characters, x.is_xml,
+                                    x.known_xml, bool(x.element_classes), x.parse_only is not None)
+                for how in HOWS:
+                    reg = Reg()
+                    before = soup_tokens(reg, s)
+                    c = do_copy(s, how)
+                    after = soup_tokens(reg, c)
+                    n += 1
+                    ctx.case(("soupinfo", iname, xname, cls.__name__, how))
+                    batch.add(f"c12 soupinfo {before}", after, case | {"how": how},
+                              "Lean soupCopySelf and the fields of a copied BeautifulSoup disagree", "soupinfo")
+                    bad = []
+                    if type(c) is not type(s):
+                        bad.append(("class", type(s).__name__, type(c).__name__))
+                    if c.builder is not s.builder:
+                        bad.append(("the copy does not reuse the builder", "same object", "another"))
+                    if c.original_encoding != s.original_encoding or c.is_xml != s.is_xml or c.known_xml != s.known_xml:
+                        bad.append(("original_encoding / is_xml / known_xml", fields(s), fields(c)))
+                    bad += [(w, x, y) for w, x, y in oracle_copy(s, s, c)]
+                    if c.declared_html_encoding != s.declared_html_encoding:
+                        ctx.count("soupinfo:quirk-declared_html_encoding-not-carried-over")
+                    if c.contains_replacement_characters != s.contains_replacement_characters:
+                        ctx.count("soupinfo:quirk-contains_replacement_characters-not-carried-over")
+                    if (c.parse_only is None) != (s.parse_only is None):
+                        ctx.count("soupinfo:quirk-parse_only-dropped")
+                    if bool(c.element_classes) != bool(s.element_classes):
+                        ctx.count("soupinfo:quirk-element_classes-dropped")
+                    for w, x, y in bad:
+                        if not capped(ctx, "soupinfo"):
+                            ctx.violation(f"copy of a BeautifulSoup object: {w}", case=case | {"how": how}, expected=str(x)[:1000],
+                                          observed=str(y)[:1000], stream="soupinfo")
+                # pickling keeps the whole __dict__
+                if xname in ("plain", "parse_only"):
+                    p = pickle.loads(pickle.dumps(s))
+                    ctx.case(None)
+                    if fields(p) != fields(s) or p.builder is s.builder or type(p) is not type(s):
+                        if not capped(ctx, "soupinfo"):
+                            ctx.violation("pickling a BeautifulSoup object does not keep its document-level fields", case=case | {"how": "pickle"},
+                                          expected=str(fields(s)), observed=str(fields(p)), stream="soupinfo")
+    ctx.count("soupinfo:copies", n)
+
+
 def stream_settings(ctx):
     """one bare tag per parameter of the live Tag.__init__, given a distinctive value: every instance attribute of the copy
     equals the original's (the search behind the generated copy_self table)"""
@@ -2115,6 +2193,7 @@ def run(ctx: Ctx):
     stream_corpus(ctx, batch)
     stream_nonstring(ctx)
     stream_setitem(ctx, batch)
+    stream_soupinfo(ctx, batch)
     stream_settings(ctx)
     stream_small(ctx, batch, ctx.n(5, 6))
     stream_random(ctx, batch, ctx.n(1200, 7000))
